@@ -111,3 +111,35 @@ Section TotalPreorder.
     split; [exact Hs | apply StronglySorted_Sorted; exact Hs].
   Qed.
 End TotalPreorder.
+
+(* ------------------------------------------------------------------ the repaired defects were real *)
+(* witnesses on the pre-repair variants of the models (DESIGN section 8 D13, D14, D15) *)
+Section PreRepair.
+  Local Open Scope Z_scope.
+  Definition zarr : array Z := a_new Z [1; 2; 3].
+
+  (* D13: a failed push_at left the Array one element longer *)
+  Theorem array_push_at_pre_repair_refuted :
+    exists (a : array Z) (k v : Z),
+      in_range Z Z.eqb KArray (a_abs Z a) (SPushAt Z k v) = false /\
+      snd (a_push_at_old Z array_grow_cond array_grow_size a k v) = ORaise Z IndexError /\
+      nitems Z (fst (a_push_at_old Z array_grow_cond array_grow_size a k v)) = S (nitems Z a).
+  Proof. exists zarr, 7, 9. vm_compute. repeat split. Qed.
+
+  (* D14: pop_at on a stack Tuple raised ValueError after the element was gone *)
+  Theorem tuple_pop_at_pre_repair_refuted :
+    exists (t : tuple Z) (k : Z),
+      theap Z t = false /\
+      snd (t_pop_at_old Z t 3 k) = ORaise Z ValueError /\
+      t_abs Z (fst (t_pop_at_old Z t 3 k)) <> t_abs Z t.
+  Proof.
+    exists (t_new Z [1; 2; 3] false), 0. vm_compute. repeat split. intros H. discriminate H.
+  Qed.
+
+  (* D15: rem of an absent element was silent *)
+  Theorem tuple_rem_pre_repair_refuted :
+    exists (t : tuple Z) (v : Z),
+      in_range Z Z.eqb KTuple (t_abs Z t) (SRem Z v) = false /\
+      snd (t_rem_old Z Z.eqb t 3 v) = OUnit Z.
+  Proof. exists (t_new Z [1; 2; 3] true), 9. vm_compute. repeat split. Qed.
+End PreRepair.
